@@ -584,9 +584,12 @@ def _at(node: ast.AST, where: ast.AST) -> ast.AST:
 # ---------------------------------------------------------------------------------------------- local simplification
 def _name_uses(body: list[ast.stmt], name: str) -> tuple[list[ast.Name], list[ast.AST]]:
     loads, stores = [], []
+    decls = {id(n.target) for s in body for n in ast.walk(s) if isinstance(n, ast.AnnAssign) and n.value is None}
     for s in body:
         for n in ast.walk(s):
             if isinstance(n, ast.Name) and n.id == name:
+                if id(n) in decls:
+                    continue  # bare annotation: a declaration, not a store
                 (loads if isinstance(n.ctx, ast.Load) else stores).append(n)
             elif isinstance(n, (ast.MatchAs, ast.MatchStar)) and n.name == name:
                 stores.append(n)
